@@ -151,7 +151,8 @@ class Explorer:
         return out
 
     def _loop_writes(self, blocks):
-        locs = set()
+        locs = set()        # locals assigned directly
+        ptrs = set()        # locals written through (their pointee changes, the pointer does not)
         ext = False
         has_call = False
         for b in blocks:
@@ -161,18 +162,24 @@ class Explorer:
                     p = st['place']
                     if any(e['k'] == 'deref' for e in p['p']):
                         ext = True
-                        locs.add(p['l'])   # the base might be a reference to one of our own locals
+                        ptrs.add(p['l'])
                     else:
                         locs.add(p['l'])
             t = bl['term']
             if t['k'] == 'call':
                 has_call = True
-                locs.add(t['dest']['l'])
                 if any(e['k'] == 'deref' for e in t['dest']['p']):
                     ext = True
+                    ptrs.add(t['dest']['l'])
+                else:
+                    locs.add(t['dest']['l'])
             if t['k'] == 'drop':
-                locs.add(t['place']['l'])
-        return (locs, ext, has_call)
+                if any(e['k'] == 'deref' for e in t['place']['p']):
+                    ext = True
+                    ptrs.add(t['place']['l'])
+                else:
+                    locs.add(t['place']['l'])
+        return (locs, ext, has_call, ptrs)
 
     # --------------------------------------------------------------- locations
     def loc_of(self, st, fr, p):
@@ -582,11 +589,16 @@ class Explorer:
             raise CannotAnalyse('more than %d paths in %s' % (MAX_PATHS, self.body.id))
 
     def _havoc(self, st, h):
-        locs, ext, has_call = self.loop_havoc[h]
+        locs, ext, has_call, ptrs = self.loop_havoc[h]
         fid = self.top.id
+        # a pointer written through inside the loop may point to one of our own locals
+        for l in ptrs:
+            v = strip_upd(self.load(st, self.top, (('loc', fid, l), ())))
+            if v[0] == 'ref' and v[1][0][0] == 'loc':
+                self.store(st, (v[1][0], ()), ('havoc', h, v[1][0][2]))
         for l in locs:
             self.store(st, (('loc', fid, l), ()), ('havoc', h, l))
-        if has_call:
+        if has_call or ext:
             for l in self.mut_borrowed:
                 if l not in locs:
                     self.store(st, (('loc', fid, l), ()), ('havoc', h, l))
